@@ -30,3 +30,7 @@ def run(ctx):
     ctx.floor("A6", 3)
     T.t14_normalise_before_use(ctx, ("class_db",))
     ctx.floor("T14", 1)
+    # settings reach the strategies / databases under the parameter they are meant for (round 10)
+    from ..engines import jsonpairs as J7E
+    J7E.j7_positional_settings(ctx)
+    ctx.floor("J7", 1)
